@@ -2474,7 +2474,15 @@ class Glommer:
 
         # this "freezes" the scope in at the time of construction
         self.scope = ChainMap(dict(scope))
-        self.scope[TargetRegistry] = TargetRegistry(register_default_types=register_default_types)
+        registry = TargetRegistry(register_default_types=False)
+        # operations added with register_op() (e.g. 'assign' and 'delete' from
+        # glom.mutation) carry over, so Assign and Delete work as in glom()
+        for op_name, auto_func in scope[TargetRegistry]._op_auto_map.items():
+            if op_name not in registry._op_auto_map:
+                registry.register_op(op_name, auto_func=auto_func)
+        if register_default_types:
+            registry._register_default_types()
+        self.scope[TargetRegistry] = registry
 
     def register(self, target_type, **kwargs):
         """Register *target_type* so :meth:`~Glommer.glom()` will
